@@ -6,7 +6,7 @@ SPEC = {
     "allowed_axioms": [],
     "harness_pkg": "hx_engine",
     "harness_bin": "engine",
-    "n": {"quick": 800, "thorough": 30000},
+    "n": {"quick": 300, "thorough": 30000},
     "harness_args": {"quick": ["--prop", "C30"], "thorough": ["--prop", "C30"]},
     "harness_timeout": {"quick": 900, "thorough": 6000},
     "trusted_base": [
